@@ -433,6 +433,13 @@ class Evaluator:
         raise Broken("store to an lvalue the evaluator does not model: %s" % u.get("k"))
 
     def binop(self, op, a, b):
+        rel = ("==", "!=", "<", ">", "<=", ">=")
+        if op in rel and a is not None and b is not None:
+            # values with an order of their own (iterators, strings, buffers) before pointer identity
+            if hasattr(a, "cmp_with"):
+                return a.cmp_with(op, b)
+            if hasattr(b, "cmp_with"):
+                return b.cmp_with({"<": ">", ">": "<", "<=": ">=", ">=": "<="}.get(op, op), a)
         isptr = lambda x: x is None or hasattr(x, "addr")
         if isptr(a) and isptr(b) and not (isinstance(a, (int, bool)) and not isinstance(a, type(None))) :
             aa = 0 if a is None else a.addr
